@@ -238,7 +238,9 @@ func mops() []mop {
 		}
 		out = append(out, mop{"del", id, nil})
 	}
-	out = append(out, mop{"setg", "a", 10.0}, mop{"setg", "a", "a"}, mop{"vacuum", "", nil})
+	// deleting a member of the fixed population (it was added first, so later internal ids shift
+	// when the index is rebuilt), a snapshot in the middle of the history, and vacuum
+	out = append(out, mop{"setg", "a", 10.0}, mop{"setg", "a", "a"}, mop{"vacuum", "", nil}, mop{"del", "c", nil}, mop{"snapshot", "", nil})
 	return out
 }
 
@@ -272,6 +274,8 @@ func (s *world) apply(m mop) error {
 		return e.VDelete("i", m.id)
 	case "vacuum":
 		return e.VTriggerMaintenance("i", "vacuum")
+	case "snapshot":
+		return e.SaveSnapshot()
 	}
 	return nil
 }
@@ -368,51 +372,71 @@ func evaluate(e *engine.Engine, route string, fl []string, nEval *int64) *verdic
 	return nil
 }
 
-func runSeq(seq []mop, fl []string, nEval *int64) (v *verdict, note string) {
-	w, err := hx.NewWorld()
-	if err != nil {
-		return &verdict{"open", "", "", err.Error()}, ""
-	}
-	defer w.Destroy()
-	s := &world{w: w, live: map[string]bool{}}
-	e := w.E
-	if err := e.VCreate("i", "euclidean", 2, 4, "float32", "", nil, nil, nil); err != nil {
-		return &verdict{"create", "", "", err.Error()}, ""
-	}
-	e.VAdd("i", "c", []float32{0, 1}, map[string]any{"f": 10.0, "g": "a"})
-	e.VAdd("i", "d", []float32{1, 0}, map[string]any{"f": []any{"a", "b"}, "g": false})
-	e.VAdd("i", "e", []float32{3, 3}, nil)
-	e.VAdd("i", "h", []float32{3, 4}, map[string]any{"g": 12.0})
-	for _, m := range seq {
-		if err := s.apply(m); err != nil {
-			return &verdict{"apply", m.String(), "", err.Error()}, ""
-		}
-		w.Settle()
-	}
-	if v := evaluate(w.E, "live", fl, nEval); v != nil {
-		return v, ""
-	}
-	steps := []struct {
-		route string
-		ops   []hx.Op
-	}{
+type routeStep struct {
+	route string
+	ops   []hx.Op
+}
+
+// Two independent worlds per update sequence, so that compression runs on the live state
+// (with its deleted-but-not-vacuumed holes) and not on a state already rebuilt by a restart.
+var routePlans = [][]routeStep{
+	{
 		{"log-replay", []hx.Op{{K: hx.Restart}}},
 		{"rewrite+restart", []hx.Op{{K: hx.Rewrite}, {K: hx.Restart}}},
 		{"snapshot-restore", []hx.Op{{K: hx.Snapshot}, {K: hx.Restart}}},
+	},
+	{
 		{"compress", []hx.Op{{K: hx.Compress, I: "i", S: "float16"}}},
 		{"compress+restart", []hx.Op{{K: hx.Restart}}},
-	}
-	for _, st := range steps {
-		for _, o := range st.ops {
-			if err := w.Do(0, o); err != nil {
-				return &verdict{st.route, o.String(), "", err.Error()}, ""
-			}
-		}
-		if v := evaluate(w.E, st.route, fl, nEval); v != nil {
+	},
+}
+
+func runSeq(seq []mop, fl []string, nEval *int64) (v *verdict, note string) {
+	for pi, plan := range routePlans {
+		if v := runPlan(seq, fl, nEval, plan, pi == 0); v != nil {
 			return v, ""
 		}
 	}
 	return nil, ""
+}
+
+func runPlan(seq []mop, fl []string, nEval *int64, plan []routeStep, checkLive bool) *verdict {
+	w, err := hx.NewWorld()
+	if err != nil {
+		return &verdict{"open", "", "", err.Error()}
+	}
+	defer w.Destroy()
+	s := &world{w: w, live: map[string]bool{"c": true}}
+	e := w.E
+	if err := e.VCreate("i", "euclidean", 2, 4, "float32", "", nil, nil, nil); err != nil {
+		return &verdict{"create", "", "", err.Error()}
+	}
+	e.VAdd("i", "c", []float32{0, 1}, map[string]any{"f": 10.0, "g": "a"})
+	e.VAdd("i", "d", []float32{1, 0}, map[string]any{"f": []any{"a", "b"}, "g": false})
+	e.VAdd("i", "e", []float32{3, 3}, nil)
+	e.VAdd("i", "h", []float32{3, 4}, map[string]any{"g": 12.0, "f": "a"})
+	for _, m := range seq {
+		if err := s.apply(m); err != nil {
+			return &verdict{"apply", m.String(), "", err.Error()}
+		}
+		w.Settle()
+	}
+	if checkLive {
+		if v := evaluate(w.E, "live", fl, nEval); v != nil {
+			return v
+		}
+	}
+	for _, st := range plan {
+		for _, o := range st.ops {
+			if err := w.Do(0, o); err != nil {
+				return &verdict{st.route, o.String(), "", err.Error()}
+			}
+		}
+		if v := evaluate(w.E, st.route, fl, nEval); v != nil {
+			return v
+		}
+	}
+	return nil
 }
 
 func seqString(seq []mop) string {
